@@ -165,8 +165,8 @@ structure SI (env : Env) (F : Nat) (tk : Tok) (PF1 : Pos) (g0 : Gss) (done : Lis
   ginv : GInv env g
   frame : FrameLt (F + 1) g0 g
   gu : GU (F + 1) g
-  map : ∀ k v, (k, v) ∈ m → k.2 = PF1 ∧ ∃ hv : Head, g.heads[v]? = some hv ∧ hv.state = k.1 ∧ hv.frontier = F + 1 ∧
-    hv.pos = PF1 ∧ hv.tok = none
+  map : ∀ k v, (k, v) ∈ m → k.2 = PF1 ∧ env.t.symAt k.1 = tk.kind ∧ ∃ hv : Head, g.heads[v]? = some hv ∧ hv.state = k.1 ∧
+    hv.frontier = F + 1 ∧ hv.pos = PF1 ∧ hv.tok = none
   keys : m.Pairwise (fun x y => x.1 ≠ y.1)
   level : ∀ (h : Nat) (hd : Head), g.heads[h]? = some hd → hd.frontier = F + 1 → ∃ k, (k, h) ∈ m
   shifted : ∀ x ∈ done, ShiftedW g F tk x
@@ -188,7 +188,7 @@ theorem shiftOne_run {env : Env} (hT : TableOk env) {F : Nat} {tk : Tok} {LF PF1
   split at hok
   · -- the head exists
     rename_i v hget
-    obtain ⟨hk2, hv, hhv, hvs, hvf, hvp, hvt⟩ := hI.map _ _ (baseGet_mem hget)
+    obtain ⟨hk2, _, hv, hhv, hvs, hvf, hvp, hvt⟩ := hI.map _ _ (baseGet_mem hget)
     simp only [head_sat' _ _ _ hhv, obind, addNode_idx] at hok
     injection hok with hok
     injection hok with e1 e2
@@ -197,8 +197,8 @@ theorem shiftOne_run {env : Env} (hT : TableOk env) {F : Nat} {tk : Tok} {LF PF1
     rw [e1] at f u hh w1 hn hed
     refine ⟨hg', hI.frame.trans f, u, ?_, hI.keys, ?_, ?_, ?_⟩
     · intro k v' hkv
-      obtain ⟨k1, x', k2, k3⟩ := hI.map k v' hkv
-      exact ⟨k1, x', by rw [hh]; exact k2, k3⟩
+      obtain ⟨k1, k1', x', k2, k3⟩ := hI.map k v' hkv
+      exact ⟨k1, k1', x', by rw [hh]; exact k2, k3⟩
     · intro h hd' hh' hl; rw [hh] at hh'; exact hI.level h hd' hh' hl
     · intro y hy
       rcases List.mem_cons.mp hy with heq | hr
@@ -240,9 +240,12 @@ theorem shiftOne_run {env : Env} (hT : TableOk env) {F : Nat} {tk : Tok} {LF PF1
       rcases mem_baseInsert hkv with heq | hr
       · injection heq with j1 j2
         subst j1; subst j2
-        exact ⟨rfl, nh, hnew, by rw [← hnh], by rw [← hnh], by rw [← hnh], by rw [← hnh]⟩
-      · obtain ⟨k1, x', k2, k3⟩ := hI.map k v' hr
-        exact ⟨k1, x', hold _ _ k2, k3⟩
+        have hterm := hT.s.shift_term _ _ _ hact
+        have htrans : env.t.trans env.g hd.state tk.kind x.2 := by
+          unfold Table.trans; simp only [hterm, ↓reduceIte]; exact hact
+        exact ⟨rfl, hT.sym _ _ _ htrans, nh, hnew, by rw [← hnh], by rw [← hnh], by rw [← hnh], by rw [← hnh]⟩
+      · obtain ⟨k1, k1', x', k2, k3⟩ := hI.map k v' hr
+        exact ⟨k1, k1', x', hold _ _ k2, k3⟩
     · rw [← e2]; exact baseInsert_pairwise hI.keys hkne
     · intro h hd' hh' hl
       rw [hh, addHead_heads] at hh'
